@@ -42,7 +42,10 @@ SliceOK(e) ==
              LET idx == Unflat(rshape, n)
                  lo == g.data[Flat(g.shape, Insert(idx, a, i))]
                  hi == g.data[Flat(g.shape, Insert(idx, a, i + 1))]
-             IN FClose(e.res.data[n], Lerp(lo, hi, t), FDec("1e-14"), FDec("1e-300"))
+             IN (* the blend is computed to a few ulps of its LARGER operand: next to a node whose value is 0 the result is tiny against the *)
+                (* neighbour's 3e20 and carries that neighbour's rounding                                                               *)
+                \/ FClose(e.res.data[n], Lerp(lo, hi, t), FDec("1e-14"), FDec("1e-300"))
+                \/ FLe(FAbs(FSub(e.res.data[n], Lerp(lo, hi, t))), FMul(FDec("1e-13"), FMax(FAbs(lo), FAbs(hi))))
                 /\ (e.x = ax[i] => e.res.data[n] = lo) /\ (e.x = ax[i + 1] => e.res.data[n] = hi)
 
 Check(e) ==
